@@ -172,7 +172,10 @@ func c13R1b(c *Ctx) {
 	}
 	tunnel := func(val bool) assumption { return assumption{pred: isVar("tunnel"), val: val} }
 	conn := func(val bool) assumption {
-		return assumption{pred: func(v ssa.Value) bool { call, _ := callOf(v); return call != nil && isAtomicOnField(call, "tunnelConnected", "Load") }, val: val}
+		return assumption{pred: func(v ssa.Value) bool {
+			call, _ := callOf(v)
+			return call != nil && isAtomicOnField(call, "tunnelConnected", "Load")
+		}, val: val}
 	}
 	for _, w := range []struct {
 		name string
@@ -340,9 +343,9 @@ func c13R3(c *Ctx) {
 func c13R4(c *Ctx) {
 	type w struct{ fn, method string }
 	want := map[w]int64{
-		{"TrzszRelay.wrapOutput", "Store"}:                   c.constVal("kRelayHandshaking"),
-		{"TrzszRelay.flushHandshakeBuffer", "Store"}:         c.constVal("kRelayTransferring"),
-		{"TrzszRelay.resetToStandby", "CompareAndSwap"}:      c.constVal("kRelayStandBy"),
+		{"TrzszRelay.wrapOutput", "Store"}:              c.constVal("kRelayHandshaking"),
+		{"TrzszRelay.flushHandshakeBuffer", "Store"}:    c.constVal("kRelayTransferring"),
+		{"TrzszRelay.resetToStandby", "CompareAndSwap"}: c.constVal("kRelayStandBy"),
 	}
 	seen := 0
 	for _, f := range c.AllFns {
